@@ -244,9 +244,11 @@ func redactCommand(cmd *orderedmap.OrderedMap[string, any], shouldEagerRedact bo
 	}
 }
 
-var planSummaryIndexScan = regexp.MustCompile(`IXSCAN\s*\{([^}]+)\}`)
+// planSummaryIndexScan matches a plan-summary stage together with its index key pattern:
+// IXSCAN { a: 1 }, EXPRESS_IXSCAN { _id: 1 }, COUNT_SCAN { a: 1 }, DISTINCT_SCAN { a: 1, b: 1 }.
+var planSummaryIndexScan = regexp.MustCompile(`(?:IXSCAN|COUNT_SCAN|DISTINCT_SCAN)\s*\{([^}]+)\}`)
 
-// redactFieldNamesFromPlanSummary replaces the index-key names of every IXSCAN stage by their
+// redactFieldNamesFromPlanSummary replaces the index-key names of every index-scan stage by their
 // pseudonyms. Each key is rewritten where it stands: replacing the names across the whole text
 // would also hit their occurrences inside other names, inside the stage keyword and inside the
 // pseudonyms written before.
